@@ -208,8 +208,12 @@ class DataFrameSchemaBackend(PandasSchemaBackend):
             _orig_coerce = schema_component.coerce
 
             try:
-                if schema.dtype is not None:
-                    # override column dtype with dataframe dtype
+                if (
+                    schema.dtype is not None
+                    and schema_component is not schema.index
+                ):
+                    # override column dtype with dataframe dtype (the
+                    # dataframe dtype does not apply to the index)
                     schema_component.dtype = schema.dtype  # type: ignore
 
                 # disable coercion at the schema component level since the
